@@ -213,6 +213,23 @@ pub fn c12(args: &Args) {
     // batch inversion shapes: empty, all zero, block-sized lengths with zeros around multiples of 64 (a chunked implementation)
     {
         let mut shapes: Vec<Vec<i16>> = vec![vec![], vec![0], vec![0, 0], vec![0; 64], vec![0; 65]];
+        // batches whose running product passes through 1 (an element followed by its inverse), -1, and ends at 1
+        for _ in 0..(if thorough { 40 } else { 6 }) {
+            let a = rng.gen_range(2..Q as i16);
+            let b = rng.gen_range(2..Q as i16);
+            let ai = verif::felt_inverse_or_zero(a);
+            let abi = verif::felt_inverse_or_zero(verif::felt_mul(a, b));
+            shapes.push(vec![a, ai]);
+            shapes.push(vec![a, ai, b, 7]);
+            shapes.push(vec![a, 0, ai, b]);
+            shapes.push(vec![a, b, abi]);
+            shapes.push(vec![b, a, verif::felt_neg(abi), 5, 1]);
+            shapes.push(vec![1, 1, a, 1, ai, 1]);
+        }
+        shapes.push(vec![1]);
+        shapes.push(vec![1, 1, 1]);
+        shapes.push(vec![12288, 12288]);
+        shapes.push(vec![2, 6145]);
         for &len in &[63usize, 64, 65, 128, 512, 1024] {
             let mut v: Vec<i16> = (0..len).map(|_| rng.gen_range(1..Q as i16)).collect();
             shapes.push(v.clone());
